@@ -10,7 +10,8 @@ Clauses (loss-free medium):
   intact       whatever any application dequeues is byte-for-byte a message that was sent to it
   at_most_once no message is dequeued twice anywhere
   mtu          messages > 24 bytes travel as >= 2 frames (every on-air payload is <= 32 bytes by construction of the chip)
-With injected loss (separate configuration `lossy`) only intact / at_most_once / nobody_else are enforced.
+With injected loss (separate configuration `lossy`) only intact / nobody_else are enforced: the statement promises
+exactly-once only "provided no packet is lost" (a lost link-layer ACK legitimately makes a hop forward a frame twice).
 """
 from nrfsim.core import SimAbort, stream, MS, US
 from nrfsim.harness import Result
@@ -188,7 +189,7 @@ def _run(scn, w, net, res):
                             "destination %o dequeued from %o type %d %d bytes; sent from %o type %d %d bytes%s"
                             % (k, frm, typ, len(body), m["src"], m["type"], len(data), "" if body != data else " (same bytes)"))
         got = [e for e in new[m["dst"]] if (e[1], e[3], e[4]) == (m["src"], m["type"], data)]
-        if len(got) > 1:
+        if len(got) > 1 and not lossy:
             res.add("at_most_once", dict(sig_base, kind="duplicate_delivery"), "message delivered %d times to %o" % (len(got), m["dst"]))
         if not lossy:
             if not quiet:
